@@ -33,8 +33,8 @@ ASSUMPTIONS = [
     "and mouse events (the whole drag state machine), flush with EXPOSE handlers, take_focus with FOCUS handlers, "
     "set_geometry / reposition / terminal resize with GEOMCHANGE handlers, re-entrant handlers making any calls -- with "
     "the discipline wf_trace of LifeSpecEv.v, which reads "
-    "the library's frame references off the model's trace -- that wf_client accepts only traces wf_trace accepts is "
-    "proved for traces without frames and tested by the oracle on every case; more fuel never changes a verdict "
+    "the library's frame references off the model's trace, and -- through the proved bridge between the two disciplines, "
+    "LifeNorm.v -- with wf_client itself (C08_no_fault, C08_all_released); more fuel never changes a verdict "
     "(proved), an explicit fuel bound for event-free histories is not proved, with events none exists (proved)",
     "all windows of a script have their top-left corner at their parent's, are 8 columns wide and 3 or 4 lines high (the "
     "root: 3 or more): the pointer structure, not the geometry, is explored; the damage of the root is then always one "
@@ -43,9 +43,10 @@ ASSUMPTIONS = [
     "is used at top level and in key / mouse handlers only; after a terminal resize the harness exposes the whole root)",
     "a handler of the kinds EXPOSE / FOCUS / GEOMCHANGE makes a call that dispatches its own kind again only after it has "
     "unbound itself (the harness cuts a handler's nesting off at depth 6, the model has no such cut-off)",
-    "DESTROY handlers that make calls are NOT modelled (the model records the binding and never runs it): for scripts that "
-    "bind one (b<i>.d...., about 3 % of the W cases) the observation is not compared with the model's, the oracle -- the "
-    "extracted discipline on the trace of calls the harness reports -- judges them alone, and no theorem is about them",
+    "DESTROY handlers that make calls (b<i>.d...., about 3 % of the W cases) are in the model that is compared with the "
+    "library (variant fixedh of LifeDefs.v) but outside every theorem: the theorems are about the variant in which they make "
+    "no calls (fixed), and the driver checks on every case without such calls that the two variants give the same "
+    "observation; the calls a DESTROY handler makes on its own window are made but not traced, by harness and model alike",
     "a single root window per script; the harness holds the only client reference to the terminal",
     "R cases: text and erase calls cover a whole line, so that a line is a single span (span splitting, masks, clips "
     "and translation belong to C03/C04); pens / frames / strings of a buffer are counted as live blocks of their sizes",
@@ -716,11 +717,7 @@ def has_destroy_handler(case):
 
 
 def canon(case, obs):
-    """details after '#' (sanitizer kind, file, function, LSan's own verdict) are for the reader only.
-    The model does not run DESTROY handlers: for scripts that bind one the observation is not compared with the
-    model's; the oracle (the discipline on the trace the harness reports) judges them on its own."""
-    if has_destroy_handler(case):
-        return "(DESTROY handler: not modelled)"
+    """details after '#' (sanitizer kind, file, function, LSan's own verdict) are for the reader only"""
     i = obs.find(" #")
     return obs[:i] if i >= 0 else obs
 
